@@ -132,6 +132,23 @@ def expandStates (n : Nat) (rot : Fin n → Bool) (σ : Fin n → Bool) : List (
       Nat.testBit i (m - 1 - rank)
     else σ j)
 
+/-- which fast path -/
+inductive FastPath where
+  | innerProd
+  | rhoProbs
+  deriving DecidableEq, Repr
+
+/-- outcome class when `states` is ONE 1-D vector `(n,)` instead of a batch `(B, n)` (outside the property's quantifier,
+"any batch of outcome states"; audit item C04-6). With a rotated site, `v[..., sites] = generate_hilbert_space(size=m).unsqueeze(1)`
+(`unitaries.py:177`) writes a `(2^m, 1, m)` tensor into a `(2^m, m)` slice: `RuntimeError`. With an all-`Z` basis
+`v = states.unsqueeze(0)`, `Ut = ones((1,))`: `rotate_psi_inner_prod` returns the single amplitude, `rotate_rho_probs` fails in
+`np.einsum("ib,jb->ijb", Ut, conj(Ut))` on the 1-D `Ut` (`ValueError`). -/
+def vectorStatesOutcome (p : FastPath) (anyRotated : Bool) : Except PyErr Unit :=
+  if anyRotated then .error .RuntimeError
+  else match p with
+    | .innerProd => .ok ()
+    | .rhoProbs => .error .ValueError
+
 /-! ### the fast paths as the code computes them: enumeration of the expanded states
 
 `_rotate_basis_state` (`unitaries.py:154-181`), line by line against `expandStates` / `rotCoeff`:
@@ -182,6 +199,70 @@ def dY : M2 α := fun r c =>
   ((if c then 0 else invSqrt2),
    (if c then (if r then invSqrt2 else -invSqrt2) else 0))
 def dZ : M2 α := fun r c => ((if r == c then 1 else 0), 0)
+
+/-! ### dictionaries of unitaries: `create_dict`, `_unitaries_of`, lookup by basis letter
+
+`unitaries.py:22-61` (`create_dict`), `:64-72` (`_unitaries_of`, new with `fix:` 4aa6393), and the lookups
+`us = [unitaries[b] for b in basis]` (`rotate_psi` `:125`, `rotate_rho` `:156`) resp.
+`Us = torch.stack([unitaries[b] for b in basis[sites]])` (`_rotate_basis_state` `:173`: ROTATED sites only). -/
+
+/-- a Python `dict(str, tensor)` of single-qubit matrices: association list, the FIRST entry of a key is the value -/
+abbrev UDict (α : Type) := List (Char × M2 α)
+
+/-- `create_dict(**kwargs)`: the default entries `X`, `Y`, `Z`, then `dictionary.update(kwargs)` — a keyword that
+shares a default key OVERWRITES the default matrix (docstring `:29-31`), also for `Z`. -/
+def createDict (kw : UDict α) : UDict α := kw ++ [('X', dX), ('Y', dY), ('Z', dZ)]
+
+/-- `_unitaries_of(nn_state, unitaries)` (`:64-72`): `if unitaries: return unitaries` (Python truthiness: `None` and
+the EMPTY dict are falsy); else `nn_state.unitary_dict` if the state has one (`own = some …`: ComplexWaveFunction,
+DensityMatrix); else (`own = none`: PositiveWaveFunction) the default dictionary `create_dict()`. -/
+def unitariesOf (given own : Option (UDict α)) : UDict α :=
+  match given with
+  | some (e :: d) => e :: d
+  | _ =>
+    match own with
+    | some o => o
+    | none => createDict []
+
+/-- the per-site matrices of a basis string: `unitaries[b]` for every site `j` with `use j` (`KeyError` when such a
+letter is not a key of the dictionary). `use = fun _ => true` for `rotate_psi` / `rotate_rho`; `use j = (basis j != 'Z')`
+for `_rotate_basis_state`, which never looks up the letter of a non-rotated site (the matrix placed there, `dZ`, is never
+read by the fast-path model). -/
+def siteUs {n : Nat} (d : UDict α) (use : Fin n → Bool) (basis : Fin n → Char) : Except PyErr (Fin n → M2 α) :=
+  if (List.finRange n).all (fun j => !use j || (d.lookup (basis j)).isSome) then
+    .ok (fun j => (d.lookup (basis j)).getD dZ)
+  else .error .KeyError
+
+/-- `sites = np.where(basis != "Z")[0]` as a flag per site: a test on the LETTER (`:170`) -/
+def rotOf {n : Nat} (basis : Fin n → Char) : Fin n → Bool := fun j => basis j != 'Z'
+
+/-- `rotate_psi(nn_state, basis, space, unitaries, psi)` (`:117-126`) from the dictionary resolution on: lookup of every
+letter (`KeyError`), then `_kron_mult`, whose size check `l != x.shape[1]` raises `ValueError`. -/
+def rotatePsiD {n : Nat} (given own : Option (UDict α)) (basis : Fin n → Char) (psi : List (C α)) :
+    Except PyErr (List (C α)) := do
+  let us ← siteUs (unitariesOf given own) (fun _ => true) basis
+  if 2 ^ n != psi.length then throw .ValueError
+  return rotatePsiL n us psi
+
+/-- `rotate_rho(nn_state, basis, space, unitaries, rho)` (`:148-161`) likewise (`rho` as a list of rows). -/
+def rotateRhoD {n : Nat} (given own : Option (UDict α)) (basis : Fin n → Char) (rho : List (Row α)) :
+    Except PyErr (List (Row α)) := do
+  let us ← siteUs (unitariesOf given own) (fun _ => true) basis
+  if 2 ^ n != rho.length then throw .ValueError
+  return rotateRhoL n us rho
+
+/-- `rotate_psi_inner_prod(nn_state, basis, σ, unitaries, …)` (`:226-239`) from the dictionary resolution on: only the
+letters of rotated sites are looked up; sites whose LETTER is `Z` are left alone whatever the dictionary holds for `Z`. -/
+def rotatePsiInnerProdD {n : Nat} (given own : Option (UDict α)) (basis : Fin n → Char)
+    (psi : (Fin n → Bool) → C α) (σ : Fin n → Bool) : Except PyErr (C α) := do
+  let us ← siteUs (unitariesOf given own) (rotOf basis) basis
+  return rotatePsiInnerProdE n us (rotOf basis) psi σ
+
+/-- `rotate_rho_probs(nn_state, basis, σ, unitaries, …)` (`:273-289`) likewise. -/
+def rotateRhoProbsD {n : Nat} (given own : Option (UDict α)) (basis : Fin n → Char)
+    (rho : (Fin n → Bool) → (Fin n → Bool) → C α) (σ : Fin n → Bool) : Except PyErr α := do
+  let us ← siteUs (unitariesOf given own) (rotOf basis) basis
+  return rotateRhoProbsE n us (rotOf basis) rho σ
 
 end Unitaries
 end
